@@ -243,7 +243,7 @@ Proof.
     - exists h3. split; [reflexivity|]. eapply cells_by_ext; [apply cells_by_refl|].
       intros a c Hfa. unfold on. destruct (Pos.eqb p a) eqn:Epa; auto. apply Pos.eqb_eq in Epa. subst a.
       rewrite Hp3 in Hfa. inversion Hfa; subst c. unfold clear_focus. rewrite Ef. reflexivity. }
-  destruct Hstep4 as [h4 [Hrun4 CB4]]. rewrite Hrun4.
+  destruct Hstep4 as [h4 [Hrun4 CB4]].
   assert (CB : cells_by h0 h4 (remove_F p w s (w_next cw))).
   { unfold remove_F, remove_Fg. eapply cells_by_trans with (h2 := h3); eauto. }
   assert (HI4 : hinv D h4)
@@ -260,7 +260,6 @@ Proof.
     - subst a. rewrite Hw in Hfa. inversion Hfa; subst c. rewrite HFw. right. reflexivity.
     - left. exact (rm_F_parent h0 h4 p w cw l1 s (clear_focus w) (clear_focus_keeps w) Hs CB a c Ea). }
   (* the final expose of the parent *)
-  unfold bind at 1. rewrite (getw_run h4 w _ Hw4). cbn [w_visible set_parent set_next].
   assert (Hexact : forall a c, a <> w -> findw h0 a = Some c ->
             exists c', findw h4 a = Some c' /\ w_parent c' = w_parent c /\ w_ref c' = w_ref c).
   { intros a c Ha Hfa. exists (remove_F p w s (w_next cw) a c). split; [eapply cells_by_some; eauto|].
@@ -276,10 +275,25 @@ Proof.
     - eapply keeps_trans; eauto. apply rx_only_keeps. exact R.
     - exists (set_parent (set_next cw None) None). rewrite (rx_only_findw h4 h' w R). repeat split; auto.
     - intros a c Ha Hfa. rewrite (rx_only_findw h4 h' a R). apply Hexact; auto. }
+  assert (Hlp : findw h4 p <> None).
+  { destruct (kp_wins h0 h4 K4 p cp Hp) as [cp4 [Hcp4 _]]. congruence. }
+  (* the restore request at the root, when the parent's focus pointer was cleared *)
+  assert (Hrun5 : match (if ptr_eqb (w_focus cp3) (Some w)
+                         then setw p (set_focus cp3 None) ;;; focus_chain_changed fuel (Some p) else ret tt) h3 with
+                  | Ok _ h5 => rx_only h4 h5 | Fault _ _ => False | NoFuel => True end).
+  { destruct (ptr_eqb (w_focus cp3) (Some w)).
+    - unfold bind. rewrite Hrun4.
+      apply (focus_chain_changed_spec D fuel (Some p) h4 h4). split; [reflexivity|]. split; [exact HI4|].
+      intros a Ea. inversion Ea; subst a. exact Hlp.
+    - cbn in Hrun4 |- *. inversion Hrun4. apply rx_only_refl. }
+  destruct ((if ptr_eqb (w_focus cp3) (Some w)
+             then setw p (set_focus cp3 None) ;;; focus_chain_changed fuel (Some p) else ret tt) h3) as [u5 h5| |];
+    [|contradiction|exact I].
+  unfold bind at 1. rewrite (getw_run h5 w (set_parent (set_next cw None) None)) by (rewrite (rx_only_findw h4 h5 w Hrun5); exact Hw4).
+  cbn [w_visible set_parent set_next].
   destruct (w_visible cw).
-  - assert (Hlp : findw h4 p <> None).
-    { destruct (kp_wins h0 h4 K4 p cp Hp) as [cp4 [Hcp4 _]]. congruence. }
-    pose proof (expose_spec D fuel p h4 h4 (conj eq_refl (conj HI4 Hlp))) as He.
-    destruct (expose fuel p h4) as [u h5| |]; [|contradiction|exact I]. apply Hfin. exact He.
-  - cbn. apply Hfin. apply rx_only_refl.
+  - assert (Hlp5 : findw h5 p <> None) by (rewrite (rx_only_findw h4 h5 p Hrun5); exact Hlp).
+    pose proof (expose_spec D fuel p h5 h5 (conj eq_refl (conj (hinv_rx_only D h4 h5 HI4 Hrun5) Hlp5))) as He.
+    destruct (expose fuel p h5) as [u h6| |]; [|contradiction|exact I]. apply Hfin. eapply rx_only_trans; eauto.
+  - cbn. apply Hfin. exact Hrun5.
 Qed.
